@@ -32,6 +32,24 @@ func main() {
 			gen(g, mspace(g), toDenseTemplates())
 			gen(g, mspace(g), toExtractTemplates())
 		}},
+		// The same object in two operand positions, one under T().
+		vlib.Group{Name: "sameop", Gen: func(g *vlib.G) {
+			gen(g, vecSpace(g.Seed, g.Thorough()), vecSameOpTemplates())
+			gen(g, mspace(g), denseSameOpTemplates(K(g)))
+			gen(g, mspace(g), symSameOpTemplates())
+		}},
+		// Error-returning paths: operand windows of a rank-one backing array.
+		vlib.Group{Name: "singular", Gen: func(g *vlib.G) {
+			N := vlib.Pick(g, 5, 6)
+			ms := rank1Fill(matSpace(N, g.Seed, g.Thorough()), N)
+			sel := []string{"Dense.Inverse", "Dense.Solve", "TriDense.SolveTo"}
+			gen(g, ms, pickTemplates(denseTemplates(N+1), sel...))
+			gen(g, ms, pickTemplates(denseSelfOpTemplates(N+1), sel...))
+			gen(g, ms, pickTemplates(denseSameOpTemplates(N+1), sel...))
+			vs := rank1Fill(vecSpace(g.Seed, g.Thorough()), 4)
+			gen(g, vs, pickTemplates(vecTemplates(5, 4), "VecDense.SolveVec"))
+			gen(g, vs, pickTemplates(vecSelfOpTemplates(4), "VecDense.SolveVec"))
+		}},
 		// The receiver itself as one operand, every window as the other.
 		vlib.Group{Name: "selfop", Gen: func(g *vlib.G) {
 			gen(g, vecSpace(g.Seed, g.Thorough()), vecSelfOpTemplates(4))
